@@ -2,6 +2,8 @@
    Statements only; proofs are in Inv/WildProofs.v. *)
 From Coq Require Import List NArith Bool.
 From MV Require Import Base.PyStr Inv.WildModel Inv.WildProofs Inv.SphinxModel Inv.SphinxProofs.
+From MV Require Import Inv.LinkModel.
+From MV Require Import Inv.LinkProofs.
 Import ListNotations.
 
 (* '*' any run of characters, '\*' a literal star, every other character only itself:
@@ -48,6 +50,26 @@ Theorem C19_inv_link : forall ms,
   end.
 Proof. exact inv_link_spec. Qed.
 Print Assumptions C19_inv_link.
+
+(* the reference an inv: link renders: nothing but one iref_missing warning when no entry matches; otherwise
+   the FIRST matching entry, with one iref_ambiguous warning iff there are several; its refuri is the entry's
+   location joined to the inventory's base URL ([joined]: an absolute location stands alone, a base ending in "/"
+   is concatenated, otherwise "/" is inserted; no or empty base: the location itself); its text is the link's own
+   text if explicit, else the entry's display text, else the entry's name as a literal.
+   (posixpath.join is the model InvLoad.PyText.pjoin, characterised by C18_posixpath_join.) *)
+Theorem C19_inv_link_render : forall explicit ms,
+  match ms with
+  | [] => render_link_inventory explicit ms = LR_missing
+  | m :: rest =>
+      exists r, render_link_inventory explicit ms = LR_ref (match rest with [] => false | _ => true end) r /\
+                r_refuri r = joined (m_base m) (m_loc m) /\
+                r_text r = (if explicit then RT_children
+                            else if truthy (m_text m)
+                                 then RT_text (match m_text m with Some t => t | None => [] end)
+                                 else RT_literal (m_name m))
+  end.
+Proof. exact inv_link_render. Qed.
+Print Assumptions C19_inv_link_render.
 
 (* the matcher as it was before the re.DOTALL repair does not meet the documented semantics *)
 Theorem C19_without_dotall_refuted :
